@@ -18,8 +18,6 @@ ASSUMPTIONS = ["a base argument is in range (< 4); rank arguments are < 4^K; the
 
 
 def run(F, rep):
-    # crate helpers generic over the k-mer type: identified with a trait operation per type (and used as such by the tables below)
-    rep.run(lemmas.kmer_helper_lemmas, F, rep, "C10.9")
     rep.engines.update(["E2-BV", "E1"])
     rep.run(common.kmer_floor, F, rep)
     rep.run(lemmas.ladder_lemmas, F, rep)
